@@ -1,0 +1,13 @@
+//go:build verif
+
+package http
+
+// Contracts checked by /verif/goavc (comment-only file, built only with -tags verif).
+
+//@ smt (define-fun httpTable ((name String) (f Bool) (to Bool) (tmp Bool)) Int (ite (= name "unsupported_media_type") 415 (ite f 500 (ite to (ite tmp 504 408) (ite tmp 503 400)))))
+
+//@ func (*ErrorResponse).StatusCode
+//@   property C18 C05
+//@   requires resp != nil
+//@   ensures* table: result == httpTable(resp.Name, resp.Fault, resp.Timeout, resp.Temporary)
+//@   modifies nothing
